@@ -2621,10 +2621,6 @@ impl<'store> QueryIter<'store> {
             Some(&Constraint::Text(text, TextMode::CaseInsensitive)) => {
                 Box::new(store.find_text_nocase(text).annotations())
             }
-            Some(Constraint::Regex(_regex)) => {
-                todo!("regex constraint not implemented yet"); //TODO
-                                                               //Box::new(store.find_text_regex(&regex).annotations())
-            }
             Some(&Constraint::TextVariable(var)) => {
                 if let Ok(tsel) = self.resolve_textvar(var) {
                     Box::new(tsel.annotations())
@@ -3380,7 +3376,6 @@ impl<'store> QueryIter<'store> {
                     ));
                 }
             }
-            Some(&Constraint::Union(..)) => todo!("UNION not implemented yet"),
             Some(&Constraint::Limit { begin, end }) => {
                 Box::new(store.annotations().textselections().limit(begin, end))
             }
